@@ -8,7 +8,8 @@
  "replace_calls": {"macroequal": "stub_macroequal"},
  "variants": {"obj": ["-DV_FUNC=0", "-DV_REDEF=0"], "func": ["-DV_FUNC=1", "-DV_REDEF=0"], "redef": ["-DV_FUNC=0", "-DV_REDEF=1"]},
  "kind": "bounded",
- "bound": "one #define line: object-like, or function-like with 0..2 named parameters drawn from {a, b, __VA_ARGS__} and an optional `...`; replacement list of 0..3 tokens drawn from {a, b, c, __VA_ARGS__, #, ##, a number}, each with or without preceding white space; with or without an earlier definition of the same name",
+ "tiers": {"thorough": {"cflags": ["-DNB=3"], "timeout": 900, "bound": "as quick, replacement list of 0..3 tokens"}},
+ "bound": "one #define line: object-like, or function-like with 0..2 named parameters drawn from {a, b, __VA_ARGS__} and an optional `...`; replacement list of 0..2 tokens (thorough tier: 0..3) drawn from {a, b, c, __VA_ARGS__, #, ##, a number}, each with or without preceding white space; with or without an earlier definition of the same name",
  "timeout": 600, "replay": false,
  "assumes": ["scan() is a token-script stand-in (the scanner proper is the SCAN.* units' business)",
              "arrayadd() is a fixed-capacity append (its growth is UTIL.arrayadd's business); mapkey()/mapput() are a one-slot table (MAP.* units); macroequal() is replaced by its verdict (PP.macroequal proves the real one)",
@@ -23,7 +24,10 @@ struct token tok;
 extern int g_no_error;
 
 /* ---- the scanner, at token granularity ---- */
-#define NTOK 12
+#define NTOK 14
+#ifndef NB
+#define NB 2
+#endif
 static enum tokenkind s_kind[NTOK]; static char *s_lit[NTOK]; static bool s_space[NTOK]; static unsigned s_n, s_pos;
 
 void
@@ -89,7 +93,7 @@ harness(void)
 {
 	IN(unsigned, in_np); IN(bool, in_var); IN(unsigned, in_p0); IN(unsigned, in_p1);
 	IN(unsigned, in_nb); IN(unsigned, in_b0); IN(unsigned, in_b1); IN(unsigned, in_b2);
-	IN(bool, in_s0); IN(bool, in_s1); IN(bool, in_s2); IN(bool, in_lpspace); IN(bool, in_nameva);
+	IN(bool, in_s0); IN(bool, in_s1); IN(bool, in_s2); IN(bool, in_lpspace); IN(bool, in_nameva); IN(bool, in_after);
 	ING(bool, g_equal);
 	static struct macro old;
 	bool func = V_FUNC, redef = V_REDEF;
@@ -99,9 +103,10 @@ harness(void)
 	struct macro *m;
 	bool dup, hashok, vaok, hh, vaname, wellformed;
 
-	__CPROVER_assume(in_np <= 2 && in_nb <= 3 && in_p0 <= 2 && in_p1 <= 2);
+	__CPROVER_assume(in_np <= 2 && in_nb <= NB && in_p0 <= 2 && in_p1 <= 2);
 	__CPROVER_assume(in_b0 < B_N && in_b1 < B_N && in_b2 < B_N);
 	if (!func) __CPROVER_assume(in_np == 0 && !in_var);
+	if (!in_var) __CPROVER_assume(!in_after);
 	b[0] = in_b0; b[1] = in_b1; b[2] = in_b2; sp[0] = in_s0; sp[1] = in_s1; sp[2] = in_s2;
 	pn[0] = in_p0 == 2 ? n_va : in_p0 ? n_b : n_a; pn[1] = in_p1 == 2 ? n_va : in_p1 ? n_b : n_a; pn[2] = 0;
 	nparam = in_np + (in_var ? 1 : 0);
@@ -121,6 +126,10 @@ harness(void)
 				else { s_kind[k] = TIDENT; s_lit[k] = pn[q]; }
 				s_space[k] = false; k++;
 			}
+		}
+		if (in_after) {    /* a parameter after the ellipsis: `(..., a)` */
+			s_kind[k] = TCOMMA; s_lit[k] = 0; s_space[k] = false; k++;
+			s_kind[k] = TIDENT; s_lit[k] = n_c; s_space[k] = false; k++;
 		}
 		s_kind[k] = TRPAREN; s_lit[k] = 0; s_space[k] = false; k++;
 		base = k;
@@ -164,14 +173,14 @@ harness(void)
 		for (i = 1; i < 3; i++)
 			if (i < in_nb) { if (b[i] == B_HASHHASH) hh = true; if (b[i] == B_VA) vaok = false; }
 	}
-	wellformed = !dup && !vaname && !hh && hashok && vaok && (!redef || g_equal);
+	wellformed = !dup && !in_after && !vaname && !hh && hashok && vaok && (!redef || g_equal);
 	g_no_error = wellformed;
 
 	scan(&tok);     /* directive(): the token after `define` is current when define() is entered */
 	define();
 
 	m = g_slot;
-	__CPROVER_assert(wellformed, "C11 6.10.3p2/p5/p6, 6.10.3.2p1: a definition that violates a constraint (duplicate parameter, __VA_ARGS__ outside the replacement list of a variadic macro, # not followed by a parameter, differing redefinition) or uses the unimplemented ## is diagnosed");
+	__CPROVER_assert(wellformed, "C11 6.10.3p2/p5/p6, 6.10.3.2p1: a definition that violates a constraint (duplicate parameter, parameter after `...`, __VA_ARGS__ outside the replacement list of a variadic macro, # not followed by a parameter, differing redefinition) or uses the unimplemented ## is diagnosed");
 	__CPROVER_assume(wellformed);
 	__CPROVER_assert(g_nput == 1 && m != 0 && m != &old, "the new definition is entered in the macro table under its name");
 	__CPROVER_assert(g_neq == (redef ? 1 : 0), "an earlier definition, and only that, is compared with the new one");
@@ -202,6 +211,6 @@ harness(void)
 		}
 	__CPROVER_assert(tok.kind == TNEWLINE && s_pos == s_n, "the whole line, and nothing more, is consumed; the new-line is the current token");
 #ifdef VERIF_CANARY
-	__CPROVER_assert(!(in_nb == 3 && nparam == (func ? 3 : 0)), "CANARY");
+	__CPROVER_assert(!(in_nb == NB && nparam == (func ? 3 : 0)), "CANARY");
 #endif
 }
